@@ -284,26 +284,40 @@ PROPS = {
  },
  "C10": {
   "modules": ["OsmoVerif.Props.C10"],
-  "min_theorems": 15,
+  "min_theorems": 28,
   "fingerprints": ["Twap.*"],
   "engines": [{"name": "twap", "kind": "app", "n": {"quick": 5000, "thorough": 40000}, "shards": {"quick": 4, "thorough": 16}, "env": NO_EXPORT_IMPORT}],
-  "rule": "histories = a fresh balancer (2 or 3 assets; random / unit / power-of-two / extreme balances and weights) or concentrated pool, then real ABCI "
-          "blocks (FinalizeBlock+Commit) with irregular times (1 ms .. 13 h, sub-millisecond and equal block times, nanosecond parts): swaps, single-asset and "
-          "proportional joins, exits, CL position create / withdraw-all (drain) / refill, idle blocks, pruning passes armed through the epoch hook with keep "
+  "rule": "two kinds of histories, half of the op budget each.  SINGLE-POOL: a fresh balancer (2 or 3 assets; random / unit / power-of-two / extreme balances and weights) or "
+          "concentrated pool, then real ABCI blocks (FinalizeBlock+Commit) with irregular times (1 ms .. 13 h, sub-millisecond and equal block times, nanosecond parts): swaps, "
+          "single-asset and proportional joins, exits, CL position create / withdraw-all (drain) / refill, idle blocks, pruning passes armed through the epoch hook with keep "
           "periods from 1 ns to 48 h and per-block deletion limits 1..200; queries (both strategies, both quote assets, ToNow) with start/end on, 1 ns / 1 ms "
-          "around, between, before the first and after the last record and around the pruning cutoff; an evaluation is one op line (record update, query, "
-          "prune, dump, getSpotPrices); non-trivial = answered query or state-changing op; distinct = distinct op lines",
+          "around, between, before the first and after the last record and around the pruning cutoff.  WORLD (twap_world_test.go): a fresh chain with pools 1..12-15 or 1..257-259; "
+          "the pools whose ids are prefixes / neighbours of each other in the decimal and little-endian key encodings (1, 2, 10, 11, 12, 25, 100, 101, 110, 255, 256, 257) are active "
+          "balancer pools with 2-5 assets (1-10 pairs) or concentrated pools, the others inert fillers on the neighbouring keys; denoms from alphabets of prefix-related and "
+          "byte-adjacent names (uusd/uusdc/uusdc.e/uusd-, abc/abcd/abc-/abc./abc/d/abcz, gamm/pool/1/10/100/11/2/256, zzz/zzzz/zz_z: lowest and highest valid denom characters next "
+          "to the key separator); every block moves the price of a random subset of the pools; one block in four repeats its predecessor's timestamp with messages directed at pools "
+          "updated in the predecessor (update rejected: record exists for this time) AND at untouched pools on both sides in changed-pool order; pruning passes with cutoffs on / 1 ns "
+          "next to record times and per-block limits 5..200, before/after which every ordered pair of every active pool is asked both strategies on intervals inside / at the edge of / "
+          "outside the keep window; an evaluation is one op line (record update, block, query, prune, dump, getSpotPrices); non-trivial = answered query or state-changing op; "
+          "distinct = distinct op lines",
   "trusted_base": ["osmomath Exp2 / LogBase2 / SigFigRound as modelled in C13 (bit-exact, analytic bounds unproved)",
                    "700-bit big.Float references (harness/engines/app/bigfloat_test.go) for the geometric clauses",
-                   "the pool modules' spot prices are inputs (read back from the stored record and cross-checked against the engine's own read of the pool)"],
+                   "the pool modules' spot prices are inputs (the engine's own read of the pool at the end of the block, cross-checked against the stored record)",
+                   "store keys: the model's stores are keyed by the structured (pool, denom0, denom1, time); the byte layout is covered separately: the key constructors the keeper passes to "
+                   "the store are regenerated from types/keys.go as token lists (tools/extract/gen_twap_keys.go) and the key-range theorems of Props.C10 are re-checked over them; "
+                   "assumed: FormatTimeString is fixed-width and order preserving, iterators follow bytes.Compare; the engine's raw-store oracle (entries classified by their decoded "
+                   "values) checks the ranges on the real store with prefix-related denoms and pool ids"],
   "assumptions": ["PARTIAL: geometric TWAP vs the true 2^(weighted mean log2), geometric min/max and reciprocity of the two quote directions are decided by the "
                   "oracle on the explored cases only (tolerance: half a unit of the 8th significant figure [of the 8th decimal for values >= 0.1] + 2e-18 + 1e-17 relative)",
-                  "times are representable by UnixNano; one (pool, pair) is modelled: for pools with several pairs the rejection of one pair's update stops the "
-                  "others (updateRecords), which only matters for two blocks with the same time and is not generated for such pools",
-                  "pruning is modelled as a completed pass; the engine only observes between passes"],
+                  "times are representable by UnixNano and block times never decrease (the second rejection branch of updateRecord, record time after block time, is unreachable "
+                  "through blocks; missing most recent records / record count mismatch are unreachable through messages: only the repeated-timestamp rejection is generated)",
+                  "pruning is modelled as a completed pass; the engine only compares the historical index with the model between passes"],
   "explanation": "theorems for every history (induction over updates and pruning passes): accumulators are exact integrals of the recorded prices, arithmetic TWAP = "
                  "truncated time-weighted mean with explicit overlap weights (incl. interpolation), between min and max, point intervals, pruning never changes an "
-                 "answer at or after the cutoff, flag iff an error record is in force, geometric TWAP = Exp2/SigFigRound closing of the weighted mean of twapLog; "
+                 "answer at or after the cutoff, flag iff an error record is in force, geometric TWAP = Exp2/SigFigRound closing of the weighted mean of twapLog; for the "
+                 "module state of several pools and pairs: EndBlock's record loop treats every pool independently (what happens to pool B is a function of B's stores and inputs; "
+                 "an acceptable pool ends the block with fresh records whatever the other pools did), pruning works pair by pair; over the regenerated key constructors the pruning "
+                 "and lookup ranges hold exactly the keys of their own (pool, pair) before / up to the time, for denoms and pool ids that extend each other included; "
                  "model tied to the keeper by differential run through the real app",
  },
  "C05": {
